@@ -174,7 +174,7 @@ func misuses() []misuse {
 	return out
 }
 
-var misusePlacements = []string{"top", "nested", "service-less-file", "imported-used"}
+var misusePlacements = []string{"top", "nested", "service-less-file", "imported-used", "helpers-other-file", "helpers-imported"}
 
 // c12: misused annotations stop generation; valid definitions are never refused.
 func c12(c *Ctx) {
@@ -292,6 +292,23 @@ func c12(c *Ctx) {
 						mainF.Messages = []*spec.Message{{Name: "Plain", Fields: []*spec.Field{spec.F("x", 1, spec.String)}}}
 					}
 					run(caseID, []*spec.File{other, mainF}, nil, offenders, m.Client, false)
+				case "helpers-other-file", "helpers-imported":
+					// the offending message is in the generated file, the types its misused annotation
+					// refers to (enum with custom values, flattened child, oneof variants…) are declared in
+					// another file of the same proto package — generated in the same run, or only imported.
+					// A rule that looks at "the declarations of this file" misses them.
+					off, helpers := msgs[len(msgs)-1], msgs[:len(msgs)-1]
+					if len(helpers) == 0 && len(enums) == 0 {
+						continue // the rule involves no second declaration
+					}
+					other := &spec.File{Path: fmt.Sprintf("c12/m%02d/helpers.proto", i), Package: pkg, GoImport: "lab/gen/c12m", GoName: "c12m", Messages: helpers, Enums: enums}
+					mainF.Imports = []string{other.Path}
+					mainF.Messages = append(mainF.Messages, off)
+					var gen []string
+					if pl == "helpers-imported" {
+						gen = []string{mainF.Path}
+					}
+					run(caseID, []*spec.File{other, mainF}, gen, offenders, m.Client, false)
 				case "imported-used":
 					// offending message lives in an imported file that is NOT generated in this run
 					// but is used by a generated message
